@@ -221,12 +221,20 @@ def skeleton(draw, any_divs):
         step = L[-1]
     T = pos + step
     divs = [[0, d]]
-    if T >= 2 and draw(st.integers(0, 5)) == 0:
+    on_bar = False
+    if T >= 2 and draw(st.integers(0, 3)) == 0:
         base2 = draw(st.sampled_from(DIVS))
         d2 = base2 * need if base2 % need else base2
         if d2 != d:
-            divs.append([draw(st.integers(1, T - 1)), d2])
-    return {"divs": divs, "timesigs": timesigs, "T": T, "late": late, "L": L}
+            c = draw(st.integers(1, T - 1))
+            # half of the time the change stands on a bar line of the first signature (where a MusicXML file states new
+            # divisions); notes may then be held across it (see _notes)
+            hi = (timesigs[1][0] if nts > 1 else T) - 1
+            if not late and hi >= L[0] and draw(st.booleans()):
+                c = L[0] * draw(st.integers(1, hi // L[0]))
+                on_bar = True
+            divs.append([c, d2])
+    return {"divs": divs, "timesigs": timesigs, "T": T, "late": late, "L": L, "divs_on_bar": on_bar}
 
 
 def _clip_to_division_segment(divs, t, dur):
@@ -277,7 +285,10 @@ def _notes(draw, sk, nmax, fill_rests_ok, with_grace, with_rests, with_unpitched
             t = 0
         d_here = [dd for (c, dd) in divs if c <= t][-1]
         dur = draw(_duration(draw(st.sampled_from(sk["L"])), d_here))
-        dur = _clip_to_division_segment(divs, t, dur)
+        if not (sk.get("divs_on_bar") and draw(st.booleans())):
+            # (a note held across a division change that stands on a bar line keeps its length: numerically it is in mixed
+            # units, which is what tie_notes is written for - each piece is estimated with the divisions at its own start)
+            dur = _clip_to_division_segment(divs, t, dur)
         voice = draw(st.integers(1, nvoices))
         staff = draw(st.integers(1, nstaves))
         if not fill_rests_ok and draw(st.integers(0, 7)) == 0:
@@ -307,7 +318,8 @@ def _notes(draw, sk, nmax, fill_rests_ok, with_grace, with_rests, with_unpitched
             nn = dict(base)
             nn.update(id=nid(), t=pt, dur=pd, sym=None)
             q = Fraction(pd, d_here)
-            if q in TABULATED and draw(st.integers(0, 2)) == 0:
+            straddles = any(pt < c < pt + pd for (c, _) in divs[1:])
+            if not straddles and q in TABULATED and draw(st.integers(0, 2)) == 0:
                 ty, dots = TABULATED[q]
                 nn["sym"] = {"type": ty, "dots": dots} if dots or draw(st.booleans()) else {"type": ty}
             chain.append(nn)
@@ -323,6 +335,13 @@ def _notes(draw, sk, nmax, fill_rests_ok, with_grace, with_rests, with_unpitched
         # an orphan grace note (no main note): sanitize_part documents that it attaches or removes it
         out.append({"kind": "grace", "id": nid(), "t": draw(st.integers(0, max(0, T - 1))), "dur": 0, "step": "C", "alter": 0, "octave": 5,
                     "voice": 1, "staff": 1, "sym": {"type": "eighth"}, "grace_type": "grace", "orphan": True})
+    if sk.get("divs_on_bar") and draw(st.integers(0, 3)) > 0:
+        # a note held across the bar line on which the divisions change
+        c = divs[1][0]
+        t = draw(st.integers(max(0, c - L0), c - 1))
+        end = draw(st.integers(c + 1, max(c + 1, min(T, c + 2 * max(sk["L"])))))
+        out.append({"kind": "note", "id": nid(), "t": t, "dur": end - t, "sym": None, "voice": draw(st.integers(1, nvoices)), "staff": draw(st.integers(1, nstaves)),
+                    "step": draw(st.sampled_from(STEPS)), "alter": 0, "octave": draw(st.integers(2, 6))})
     # an anchor so that the timeline usually ends at the nominal end T
     if T > 0 and draw(st.integers(0, 3)) > 0:
         lo = max([0] + [c for (c, _) in divs[1:] if c < T])
